@@ -11,11 +11,11 @@ import (
 
 func init() {
 	register(&Check{
-		ID:   "C16",
-		Rule: "every civil day in the year set (thorough: all days 1..9998): year and month star under conventions 1,2,3 at [00:00:00, every term instant of the day -1s and +0s, 12:00:00, 23:59:59] with the step rule checked on every consecutive pair of moments (also across days); day star against the nearest-jiazi anchors of both solstices; hour star of Lunar and of LunarTime on all 13 slot entries; naming getters for all nine indices. non-trivial = moments where a year/month pillar changes, days within 30 days of a day-star anchor, and all hour-star states",
-		Assume: []string{"term days/instants are the library's own", "anchor: the pillar year 2024 has star three (index 2), so pillar year Y has index (2-(Y-2024)) mod 9", "at a 30-day tie either jiazi day is accepted as the anchor; at 23:xx either the current or the next day's branch group is accepted for the hour star"},
-		Shards: func(tier string, seed int64) []Shard { return yearShards(tier, seed, 9998, "") },
-		Run:    runC16,
+		ID:            "C16",
+		Rule:          "every civil day in the year set (thorough: all days 1..9998): year and month star under conventions 1,2,3 at [00:00:00, every term instant of the day -1s and +0s, 12:00:00, 23:59:59] with the step rule checked on every consecutive pair of moments (also across days); day star against the nearest-jiazi anchors of both solstices; hour star of Lunar and of LunarTime on all 13 slot entries; naming getters for all nine indices. non-trivial = moments where a year/month pillar changes, days within 30 days of a day-star anchor, and all hour-star states",
+		Assume:        []string{"term days/instants are the library's own", "anchor: the pillar year 2024 has star three (index 2), so pillar year Y has index (2-(Y-2024)) mod 9", "at a 30-day tie either jiazi day is accepted as the anchor; at 23:xx either the current or the next day's branch group is accepted for the hour star"},
+		Shards:        func(tier string, seed int64) []Shard { return yearShards(tier, seed, 9998, "") },
+		Run:           runC16,
 		MinNontrivial: 100,
 	})
 }
